@@ -78,6 +78,9 @@ func (n *node[K, V]) search(t *BTree[K, V], key K, height int) (V, bool) {
 	if height == 0 {
 		for i := 0; i < n.m; i++ {
 			if gogu.Equal(key, n.children[i].key) {
+				if n.children[i].isRemoved {
+					break
+				}
 				return n.children[i].value, true
 			}
 		}
